@@ -72,12 +72,12 @@ func c16Configs(w *vfWorld, run *vfRun) []c16Cfg {
 	cd := []string{"--cookie-domain=.cookie.example.com", "--cookie-domain=example.org"}
 	cfgs := []c16Cfg{
 		{Name: "plain", Host: "proxy.test"},
-		{Name: "trusted-ip+skip-auth+api", Host: "proxy.test", Flags: []string{"--trusted-ip=10.0.0.0/8", "--trusted-ip=127.0.0.0/8", "--skip-auth-route=^/open/", "--api-route=^/api/"}, Peers: []string{"", "10.5.5.5:40000"}},
+		{Name: "trusted-ip+skip-auth+api", Host: "proxy.test", Flags: []string{"--trusted-ip=10.0.0.0/8", "--trusted-ip=127.0.0.0/8", "--skip-auth-route=^/open/", "--api-route=^/api/", "--skip-auth-preflight=true"}, Peers: []string{"", "10.5.5.5:40000"}},
 		{Name: "whitelist+cookie-domain", Host: "www.example.org", Flags: append(append([]string{}, wl...), cd...)},
 		{Name: "relative-redirect-url", Host: "proxy.test", Flags: append([]string{"--redirect-url=/oauth2/callback", "--relative-redirect-url=true"}, wl...)},
 		{Name: "absolute-redirect-url", Host: "sub.www.example.org", Flags: append([]string{"--redirect-url=https://fixed.example.com/oauth2/callback"}, cd...)},
 		{Name: "cookie-secure", Host: "proxy.test", HTTPS: true, Flags: append([]string{"--cookie-secure=true"}, wl...)},
-		{Name: "skip-provider-button+all", Host: "app.cookie.example.com", Flags: append(append([]string{"--skip-provider-button=true", "--trusted-ip=10.0.0.0/8", "--skip-auth-route=GET=^/open/", "--api-route=^/api/"}, wl...), cd...), Peers: []string{"", "10.5.5.5:40000"}},
+		{Name: "skip-provider-button+all", Host: "app.cookie.example.com", Flags: append(append([]string{"--skip-provider-button=true", "--trusted-ip=10.0.0.0/8", "--skip-auth-route=GET=^/open/", "--api-route=^/api/", "--real-client-ip-header=X-Forwarded-For"}, wl...), cd...), Peers: []string{"", "10.5.5.5:40000"}},
 		{Name: "wire+all", Host: "www.example.org", Wire: true, Flags: append(append([]string{"--trusted-ip=10.0.0.0/8", "--skip-auth-route=^/open/", "--api-route=^/api/"}, wl...), cd...)},
 		{Name: "force-https", Host: "proxy.test:4180", TLS: true, NoAuth: true, Flags: append([]string{"--force-https=true", "--https-address=127.0.0.1:0"}, wl...)},
 	}
@@ -99,6 +99,7 @@ func c16Endpoints() []c16Endpoint {
 		{Name: "api-anon", Method: "GET", Target: "/api/v1/thing?k=v"},
 		{Name: "skip-auth-path-anon", Method: "GET", Target: "/open/y?z=2"},
 		{Name: "skip-auth-path-post", Method: "POST", Target: "/open/y", Body: "a=b"},
+		{Name: "preflight-anon", Method: "OPTIONS", Target: "/app/x", Hdr: []string{"Origin", "https://app.example.org", "Access-Control-Request-Method", "POST"}},
 		{Name: "auth-only-anon", Method: "GET", Target: "/oauth2/auth"},
 		{Name: "auth-only-auth", Method: "GET", Target: "/oauth2/auth", Auth: true},
 		{Name: "start-rd", Method: "GET", Target: "/oauth2/start?rd=%2Ffoo%3Fa%3D1"},
@@ -381,7 +382,7 @@ func c16Pick(f map[string]string, keys []string) map[string]string {
 
 func TestVerif_C16(t *testing.T) {
 	run := vfNewRun(t, "C16", "exploration")
-	run.SetRule("reverse-proxy off: 26 base requests (protected, skip-auth path, api route, auth-only, start, sign_in GET/POST, sign_out, callback invalid/error/valid, static, userinfo, ping, robots; anonymous and with session) " +
+	run.SetRule("reverse-proxy off: 27 base requests (protected, skip-auth path, api route, preflight, auth-only, start, sign_in GET/POST, sign_out, callback invalid/error/valid, static, userinfo, ping, robots; anonymous and with session) " +
 		"x all 2^6 subsets of {X-Forwarded-Host,-Proto,-Uri,-For, X-Real-IP, one other client-IP header} x value sets x 9 configurations (trusted IPs, skip-auth/api routes, whitelist + cookie domains, relative/absolute redirect-url, cookie-secure, skip-provider-button, wire driver, force-https) x peers; " +
 		"reverse-proxy on: 5 configured real-client-IP headers x value of that header x subsets of all other forwarding headers. cell = (config, endpoint, header subset, value set) / (rp-on, configured header, its value class, endpoint)")
 	run.Assume("forwarding headers received by the upstream are excluded from the comparison (legitimately passed through; the proxy appends the peer to X-Forwarded-For)",
@@ -423,6 +424,10 @@ func TestVerif_C16(t *testing.T) {
 		}
 		execs = append(execs, x)
 	}
+
+	// every instance is built before the first request is served: option validation reconfigures the package-level
+	// logger, which must not overlap with handler goroutines still finishing on the wire servers
+	rpOn := c16BuildReverseProxyOn(run, w)
 
 	// ---- part 1: reverse-proxy off, pairs ---------------------------------------------------------------
 	type job struct {
@@ -517,7 +522,7 @@ func TestVerif_C16(t *testing.T) {
 	w.Up.Reset()
 
 	// ---- part 2: reverse-proxy on: only the configured client-IP header may move the trusted-IP decision ------------
-	c16ReverseProxyOn(run, w)
+	c16ReverseProxyOn(run, w, rpOn)
 
 	if run.Counter("pairs_reaching_upstream") < 200 || run.Counter("pairs_with_redirect") < 500 || run.Counter("pairs_with_set_cookie") < 300 || run.Counter("rp_on_pairs") < 500 {
 		fmt.Printf("INCONCLUSIVE property=C16 reason=too few observations of a kind (upstream %d, redirects %d, cookies %d, rp-on %d)\n",
@@ -527,20 +532,30 @@ func TestVerif_C16(t *testing.T) {
 	run.Finish(int64(run.Env.Pick(6000, 25000)), run.Env.Pick(3000, 12000))
 }
 
-func c16ReverseProxyOn(run *vfRun, w *vfWorld) {
-	all := append(append([]string{}, c16FwdNames[3:]...), c16OtherIP...) // the five supported client-IP headers
-	type inst struct {
-		hdr string
-		p   *vfProxy
-	}
-	var insts []inst
-	for _, h := range all {
+type c16RPInst struct {
+	hdr string
+	p   *vfProxy
+}
+
+func c16ClientIPHeaders() []string {
+	return append(append([]string{}, c16FwdNames[3:]...), c16OtherIP...) // the five supported client-IP headers
+}
+
+func c16BuildReverseProxyOn(run *vfRun, w *vfWorld) []c16RPInst {
+	var insts []c16RPInst
+	for _, h := range c16ClientIPHeaders() {
 		p, err := w.NewProxy("--reverse-proxy=true", "--real-client-ip-header="+h, "--trusted-ip=10.0.0.0/8", "--trusted-ip=2001:db8::/32")
 		if err != nil {
 			run.T.Fatalf("rp-on %s: %v", h, err)
 		}
-		insts = append(insts, inst{h, p})
+		insts = append(insts, c16RPInst{h, p})
 	}
+	return insts
+}
+
+func c16ReverseProxyOn(run *vfRun, w *vfWorld, insts []c16RPInst) {
+	all := c16ClientIPHeaders()
+	type inst = c16RPInst
 	own := []struct{ Class, V string }{{"absent", ""}, {"trusted", "10.1.2.3"}, {"untrusted", "198.51.100.77"}, {"trusted-v6", "2001:db8::7"}, {"garbage", "not-an-ip"}, {"untrusted-then-trusted-list", "198.51.100.77, 10.1.2.3"}}
 	otherVals := []string{"10.1.2.3", "198.51.100.77", "10.9.9.9, 198.51.100.1", "2001:db8::1"}
 	eps := []struct{ Name, Target string }{{"protected", "/app/x"}, {"auth-only", "/oauth2/auth"}}
